@@ -14,7 +14,7 @@ TRUSTED = [
     "correspondence: extraction, driver, harness running the real protocol::{query, query_java, query_bedrock, query_legacy, query_legacy_specific} under the scripted transport (TCP streams are read_to_end)",
 ]
 RULE = ("seed-generated worlds: each of the 32 subsets of {Java, Bedrock, legacy 1.6, 1.4, beta 1.8} x how an unspoken variant fails (refused, garbage, empty stream); statuses with strings over ASCII, multi-byte, control characters, quotes, backslashes, section signs; "
-        "optional members present / absent / null, sample of 0-3 players, description as text, chat component or absent, member order varied, unknown members, trailing pong packet; Bedrock 6-12 fields with and without trailing separator; u32 counts and i32 protocol numbers at the boundaries; "
+        "Java statuses of 20-60 KB (a large favicon, sizes around 32767 bytes); optional members present / absent / null, sample of 0-3 players, description as text, chat component or absent, member order varied, unknown members, trailing pong packet; Bedrock 6-12 fields with and without trailing separator; u32 counts and i32 protocol numbers at the boundaries; "
         "each world is queried with the auto query and with each specific query it speaks; mutations: framing bytes flipped, streams truncated; the games-level functions with the port omitted against a Bedrock-only server and silence (destination ports of every connection);  non-trivial = a response is expected; distinct by case bytes")
 
 
@@ -157,8 +157,51 @@ def gen_cases(tier, rng):
                     jsons2.add(t)
         cases.append({"id": "mc/mut/%d/%d" % (v, s), "hex": mc_case(v, port, udp2, tcp2, sorted(jsons2)),
                       "meta": {"stream": "malformed", "ok": False}})
+    cases += large_status_rows(tier, seeds, outs, reqs)
     cases += module_port_rows(tier, rng, seeds, outs, reqs)
     return cases
+
+
+def _varint(n):
+    out = b""
+    while True:
+        b = n & 0x7f
+        n >>= 7
+        if n:
+            out += bytes([b | 0x80])
+        else:
+            return out + bytes([b])
+
+
+def large_status_rows(tier, seeds, outs, reqs):
+    """Java statuses whose JSON document is large (a favicon of 20 KB .. 60 KB, around the 32767 mark): the
+    length prefix counts UTF-8 bytes and has no such limit"""
+    rows = []
+    sizes = (20000, 32700, 32768, 33000, 60000)     # the case encoding carries strings of up to 65535 bytes
+    done = 0
+    for (s, v), o in zip(reqs, outs):
+        if v not in (0, 1) or o == "SKIP" or o.startswith("BADCASE") or done >= (4 if tier == "quick" else 40):
+            continue
+        udp, tcp, expected, js, tags = parse_spec(o)
+        if not js or not expected.startswith("Ok(") or b'"favicon"' in js or js[:1] != b"{" or js[1:2] == b"}" or "favicon:None" not in expected:
+            continue
+        idx = [i for i, c in enumerate(tcp) if c is not None and java_json_of(c[0]) == js]
+        if not idx:
+            continue
+        stream, flag = tcp[idx[0]]
+        n0, i0 = varint(stream, 0)
+        tail = stream[i0 + n0:]
+        for size in sizes[:(3 if tier == "quick" and done else len(sizes))]:
+            fav = b"data:image/png;base64," + b"A" * size
+            js2 = b'{"favicon":"' + fav + b'",' + js[1:]
+            inner = _varint(0) + _varint(len(js2)) + js2
+            tcp2 = list(tcp)
+            tcp2[idx[0]] = (_varint(len(inner)) + inner + tail, flag)
+            want = expected.replace("favicon:None", 'favicon:Some("%s")' % fav.decode("ascii"))
+            rows.append({"id": "mc/large/%d/%d/%d" % (v, s, size), "hex": mc_case(v, 25565, udp, tcp2, [js2]),
+                         "meta": {"stream": "java-large-status", "expected": want, "conns": tags["conns"], "ok": True}})
+        done += 1
+    return rows
 
 
 MODULE_PORTS = {"minecraft": ({25565}, {19132}), "minecraftjava": ({25565}, set()), "minecraftbedrock": (set(), {19132}), "minecraftpocket": (set(), {19132}),
